@@ -454,3 +454,84 @@ def await_task(eng, st, task, timeout, line):
     s2 = st.copy()
     advance_clock(eng, s2, None)
     yield s2, VNONE
+
+
+# ---- WebSocket driver wrappers (assumed, DESIGN Appendix E) ---------------------------------------
+FR = z3.Datatype('FR')
+FR.declare('mkfr', ('fr_out', z3.BoolSort()), ('fr_data', PV))
+FR = FR.create()
+FR_T = Ty('fr')
+EXTRA_SORTS['fr'] = FR
+lib.SPECIAL['mk_frame'] = _sp1(lambda eng, st, out, d: V(FR_T, FR.mkfr(truth(out), _pv(d))))
+lib.SPECIAL['frame_out'] = _sp1(lambda eng, st, f: vbool(FR.fr_out(f.t)))
+lib.SPECIAL['frame_data'] = _sp1(lambda eng, st, f: V(ANY, FR.fr_data(f.t)))
+
+
+def _ws_class(eng, st, f, args, kwargs, line):
+    """async driver's WebSocket class: WS(handler, server) -> WSGI/ASGI callable"""
+    s2 = st.copy()
+    app = eng.fresh(Opaque('WSApp'), 'wsapp', s2)
+    s2.notes = s2.notes + (('wsapp', app.t, args[0]),)
+    yield s2, app
+
+
+def _ws_app(eng, st, f, args, kwargs, line):
+    """ws(environ, start_response): performs the handshake and calls the handler exactly once
+    with the connection object; returns the handler's result."""
+    for note in st.notes:
+        if note[0] == 'wsapp' and note[1].eq(f.t):
+            s2 = st.copy()
+            ws = eng.fresh(Opaque('WS'), 'ws', s2)
+            yield from eng.call(s2, note[2], [ws], {}, line, awaited=True)
+            return
+    raise core.EngineError('WebSocket application object of unknown origin at line %d' % line)
+
+
+OPAQUE_CALL['WSClass'] = _ws_class
+OPAQUE_CALL['WSApp'] = _ws_app
+
+
+def _ws_log(eng, st, out, data):
+    log = st.ghost['ws_log']
+    st.ghost['ws_log'] = V(List(FR_T), z3.Concat(log.t, z3.Unit(FR.mkfr(z3.BoolVal(out), data))))
+    eng._wrote(st, ('ghost', 'ws_log'))
+
+
+def _ws_wait(eng, st, recv, args, kwargs, line):
+    """next frame (text or bytes), None when the peer closed (threaded drivers), or an exception
+    (time-out / broken connection; asyncio drivers raise OSError when closed)"""
+    s2 = st.copy()
+    advance_clock(eng, s2, None)
+    d = z3.Const(eng.name('frame'), PV)
+    eng.inputs[str(d)] = d
+    s2.pc.append(z3.Or(PV.is_ps(d), PV.is_py(d), PV.is_pnone(d)))
+    s3 = s2.copy()
+    _ws_log(eng, s2, False, d)
+    yield s2, V(ANY, d)
+    yield s3, R('OSError', line)
+    yield s3.copy(), R('AnyException', line)
+
+
+def _ws_send(eng, st, recv, args, kwargs, line):
+    s2 = st.copy()
+    advance_clock(eng, s2, None)
+    s3 = s2.copy()
+    _ws_log(eng, s2, True, _pv(args[0]))
+    yield s2, VNONE
+    yield s3, R('OSError', line)
+    yield s3.copy(), R('AnyException', line)
+
+
+def _ws_close(eng, st, recv, args, kwargs, line):
+    s2 = st.copy()
+    advance_clock(eng, s2, None)
+    yield s2, VNONE
+
+
+LIBM[('opaque:WS', 'wait')] = _ws_wait
+LIBM[('opaque:WS', 'send')] = _ws_send
+LIBM[('opaque:WS', 'close')] = _ws_close
+
+
+compressed = z3.Function('compressed', z3.StringSort(), z3.StringSort(), z3.StringSort())
+lib.SPECIAL['compressed'] = _sp1(lambda eng, st, kind, data: V(BYTES, compressed(kind.t, data.t)))
